@@ -1099,6 +1099,10 @@ pub fn rust_variant_name(name: &str) -> String {
             prev_upper = c.is_ascii_uppercase();
         }
     }
+    if out == "Self" {
+        // the only keyword that is spelled like a type or variant name
+        out.push('_');
+    }
     out
 }
 
